@@ -9,7 +9,7 @@ package config
 //	    parameters are the request's segments at the parameter positions.
 //
 // Exhaustive over: every set of 1..3 declarations out of 15 patterns (11 distinct, three repeated for a second method, one written with a trailing slash, one on a host written with an upper-case letter) (literals, one-segment parameters,
-// trailing wildcards, overlapping), with methods GET/POST assigned by position, EVERY order of the set, 10 request URLs.
+// trailing wildcards, overlapping), with methods GET/POST assigned by position, EVERY order of the set, 12 request URLs (two of them on another host whose name starts with the same labels).
 // The REAL BuildEndpointPolicyTree and Lookup run; the matcher used as oracle for "matches" is independent (segment by
 // segment). Labelled bounded: never counted as proved.
 
@@ -64,7 +64,7 @@ func c13Perms(n int) [][]int {
 func TestBoundedC13DeclarationOrderAndOwnPattern(t *testing.T) {
 	// (two patterns appear twice: the same pattern declared for two methods)
 	patterns := []string{"a.com", "a.com/*", "a.com/x", "a.com/{p}", "a.com/x/*", "a.com/x/y", "a.com/{p}/y", "a.com/x/{q}", "a.com/{p}/*", "a.com/x/y/*", "a.com/*", "a.com/x", "a.com/x/", "B.com/x", "B.com/x"}
-	urls := []string{"B.com/x", "a.com", "a.com/x", "a.com/y", "a.com/x/y", "a.com/y/y", "a.com/x/z", "a.com/y/z", "a.com/x/y/z", "a.com/y/z/w"}
+	urls := []string{"a.com.evil/x", "a.com.evil", "B.com/x", "a.com", "a.com/x", "a.com/y", "a.com/x/y", "a.com/y/y", "a.com/x/z", "a.com/y/z", "a.com/x/y/z", "a.com/y/z/w"}
 	methods := []string{"GET", "POST", "GET"}
 	checked := 0
 	var sets [][]int
